@@ -17,7 +17,7 @@ import ast
 from ..core import walk_own, norm, AnalysisError
 from ..report import Ob, Floor
 from ..abseval import Evaluator, Opaque, Sym, Cat
-from ..rules import pure, loops
+from ..rules import pure, loops, direction
 from .. import exceptions
 
 SH = "http://www.w3.org/ns/shacl#"
@@ -188,6 +188,7 @@ def check(ctx, tier):
     # ------------------------------------------------------------------- D-e
     o_pure, n_pure = pure.serialisers_do_not_mutate_model(ctx, "D-e", ignore_fields=("_comments",))
     obs.extend(o_pure)
+    obs += ctx.attempt(lambda c, cl: direction.explicit_direction(c, cl)[0], ctx, "D-g", default=[])
     exceptions.apply(obs)
     floors = [Floor("R-TABLE/R-EMIT rows evaluated", rows, 30), Floor("emission loops", n_loops, 4),
               Floor("serializer functions examined for model mutation", n_pure, 40)]
